@@ -9,6 +9,8 @@
 //   joint type ax ay az px py pz damping stiffness armature limited lo hi springref      (of the last body)
 //   geom type s0 s1 s2 px py pz qw qx qy qz condim f0 f1 f2 margin gap density            (of the last body)
 //   wgeom ...same as geom...                                                               (on the world body)
+//   site name px py pz                            (of the last body)      wsite name px py pz   (on the world body)
+//   tendon stiffness damping sl0 sl1 nwrap (kind ref coef)*     kind 0: joint j<ref> with coef; kind 1: site named s<ref>
 //   act jointindex kind gear kp                   (kind 0 motor, 1 position)
 //   END
 //   STATE nq qpos.. nv qvel.. nu ctrl..          (any number)
@@ -76,7 +78,10 @@ static void dump_model(const mjModel* m) {
   pa("geom_solimp", m->geom_solimp, mjNIMP * m->ngeom, 1); pa("geom_margin", m->geom_margin, m->ngeom, 1);
   pa("geom_gap", m->geom_gap, m->ngeom, 1);
   pa("actuator_gainprm", m->actuator_gainprm, mjNGAIN * m->nu, 1); pa("actuator_biasprm", m->actuator_biasprm, mjNBIAS * m->nu, 1);
-  pa("actuator_gear", m->actuator_gear, 6 * m->nu, 1); pi("actuator_trnid", m->actuator_trnid, 2 * m->nu, 0);
+  pa("actuator_gear", m->actuator_gear, 6 * m->nu, 1); pi("actuator_trnid", m->actuator_trnid, 2 * m->nu, 1);
+  pa("site_pos", m->site_pos, 3 * m->nsite, 1); pi("site_bodyid", m->site_bodyid, m->nsite, 1);
+  pa("tendon_stiffness", m->tendon_stiffness, m->ntendon, 1); pa("tendon_damping", m->tendon_damping, m->ntendon, 1);
+  pa("tendon_lengthspring", m->tendon_lengthspring, 2 * m->ntendon, 0);
   printf("},");
 }
 
@@ -89,6 +94,7 @@ static void dump_state(const mjModel* m, mjData* d, const mjtNum* qpos, const mj
   pa("xpos", d->xpos, 3 * m->nbody, 1); pa("xquat", d->xquat, 4 * m->nbody, 1); pa("xipos", d->xipos, 3 * m->nbody, 1);
   pa("qfrc_bias", d->qfrc_bias, nv, 1); pa("qfrc_passive", d->qfrc_passive, nv, 1); pa("qfrc_actuator", d->qfrc_actuator, nv, 1);
   pa("qacc", d->qacc, nv, 1); pa("qacc_smooth", d->qacc_smooth, nv, 1); pa("qfrc_constraint", d->qfrc_constraint, nv, 1);
+  pa("ten_length", d->ten_length, m->ntendon, 1);
   mjtNum* qM = (mjtNum*)calloc((size_t)nv * nv + 1, sizeof(mjtNum));
   mj_fullM(m, d, qM);
   pa("qM", qM, nv * nv, 1);
@@ -124,14 +130,14 @@ int main(void) {
   mjg_install_handlers();
   char* line = NULL; size_t cap = 0;
   mjSpec* s = NULL; mjModel* m = NULL; mjData* d = NULL;
-  mjsBody* bodies[MAXB]; int nb = 0; mjsBody* cur = NULL; int njnt = 0, nact = 0, nstate = 0, failed = 0;
+  mjsBody* bodies[MAXB]; int nb = 0; mjsBody* cur = NULL; int njnt = 0, nact = 0, nstate = 0, failed = 0, ntend = 0;
   while (getline(&line, &cap, stdin) > 0) {
     char* p = line;
     char kw[32]; int off = 0;
     if (sscanf(p, "%31s%n", kw, &off) != 1) continue;
     p += off;
     if (!strcmp(kw, "MODEL")) {
-      s = mj_makeSpec(); nb = 0; cur = NULL; njnt = 0; nact = 0; nstate = 0; failed = 0; m = NULL; d = NULL;
+      s = mj_makeSpec(); nb = 0; cur = NULL; njnt = 0; nact = 0; nstate = 0; failed = 0; ntend = 0; m = NULL; d = NULL;
       s->compiler.degree = 0;
       s->option.jacobian = mjJAC_DENSE;
     } else if (!strcmp(kw, "opt")) {
@@ -164,6 +170,21 @@ int main(void) {
       read_geom(mjs_addGeom(cur, NULL), p);
     } else if (!strcmp(kw, "wgeom")) {
       read_geom(mjs_addGeom(mjs_findBody(s, "world"), NULL), p);
+    } else if (!strcmp(kw, "site") || !strcmp(kw, "wsite")) {
+      char nm[32]; int o2 = 0; sscanf(p, "%31s%n", nm, &o2); p += o2;
+      mjsSite* st = mjs_addSite(!strcmp(kw, "site") ? cur : mjs_findBody(s, "world"), NULL);
+      mjs_setName(st->element, nm);
+      for (int i = 0; i < 3; i++) st->pos[i] = strtod(p, &p);
+    } else if (!strcmp(kw, "tendon")) {
+      mjsTendon* t = mjs_addTendon(s, NULL); mjg_name(t->element, "t", ntend++);
+      t->stiffness[0] = strtod(p, &p); t->damping[0] = strtod(p, &p);
+      t->springlength[0] = strtod(p, &p); t->springlength[1] = strtod(p, &p);
+      int nw = (int)strtol(p, &p, 10);
+      for (int k = 0; k < nw; k++) {
+        int kind = (int)strtol(p, &p, 10); int ref = (int)strtol(p, &p, 10); double coef = strtod(p, &p);
+        char nm[32]; snprintf(nm, sizeof(nm), kind == 0 ? "j%d" : "s%d", ref);
+        if (kind == 0) mjs_wrapJoint(t, nm, coef); else mjs_wrapSite(t, nm);
+      }
     } else if (!strcmp(kw, "act")) {
       int ji = (int)strtol(p, &p, 10); int kind = (int)strtol(p, &p, 10);
       double gear = strtod(p, &p), kp = strtod(p, &p);
